@@ -32,11 +32,11 @@ def jobs(tier):
     jobs = []
     states = [dict(m=[2, 1], explored=False, neg_inf=[[0, 1]],
                    blobs='scalar'),
-              dict(m=[2, 1], explored=True, end_exp=[1, 1], boost_max=2),
+              dict(m=[1, 1], explored=True, end_exp=[1, 1], boost_max=2),
               dict(m=[1, 1], explored=True, end_exp=[1, 0], discard=True,
                    boost_max=3)]
     if thorough:
-        states += [dict(m=[2, 2], explored=True, end_exp=[1, 0], discard=True,
+        states += [dict(m=[2, 1], explored=True, end_exp=[1, 1], boost_max=2),dict(m=[2, 2], explored=True, end_exp=[1, 0], discard=True,
                         boost_max=3),
                    dict(m=[2, 1], explored=True, end_exp=[1, 1], boost_max=3,
                         blobs='scalar'),
